@@ -359,7 +359,7 @@ package interpreter
 //@ iface Value.StaticType
 //@   assumed
 //@   nofail
-//@   env MemoryMeteringError ComputationMeteringError
+//@   env MemoryMeteringError
 //@   ensures ghostof(result, "ikind") == kind(self)
 // A new iterator starts at the range's start and satisfies the invariant that Next requires and keeps.
 //@ func NewInclusiveRangeIterator
